@@ -1332,7 +1332,7 @@ main(int argc, char **argv)
 		if (!vf_want_case(idx)) continue;
 		if (g_abort) break;
 		vf_rng_seed(&r, vf_seed, (uint64_t) idx);
-		vf_watchdog(!strcmp(vf_mode, "noblock") ? 90 : 180);
+		vf_watchdog(!strcmp(vf_mode, "noblock") ? 60 : 120);
 		if (!strcmp(vf_mode, "raw")) {
 			raw_case(idx, &r);
 		} else if (!strcmp(vf_mode, "noblock")) {
